@@ -326,16 +326,7 @@ class Sites:
             self.walk(args[u + 1 + j], v[i], path + (off + i,))
 
 
-def nullable_spec(t) -> bool:
-    """the serializer's notion of a nullable field type (only those get the `is not None` test under
-    omit_none): Any, None, Optional / Union with a direct None member -- not Literal[None]"""
-    while t[0] == "newtype":
-        t = t[1]
-    if t[0] in ("any", "none", "opt"):
-        return True
-    if t[0] == "union":
-        return any(m[0] in ("none", "any", "opt") or (m[0] == "union" and nullable_spec(m)) for m in t[1])
-    return False
+nullable_spec = G.nullable_spec
 
 
 VALIDATOR_OF = {"flag": {"enum", "const"}, "set-collision": {"uniqueItems"}, "tz": {"pattern"},
